@@ -28,13 +28,25 @@ class ValueMachine(Machine):
             obj.vstore = vs
         return vs
 
+    def _overlaps(self, obj, vs, off, size):
+        """entries of the store map overlapping [off, off+size): probes a window bounded by the largest entry"""
+        w = getattr(obj, 'vmax', 8)
+        if len(vs) <= 2 * (w + size):
+            return [(o2, s2, v2) for o2, (s2, v2) in vs.items() if o2 < off + size and off < o2 + s2]
+        out = []
+        for c in range(off - w + 1, off + size):
+            e = vs.get(c)
+            if e is not None and c + e[0] > off:
+                out.append((c, e[0], e[1]))
+        return out
+
     def vload_scalar(self, obj, off, size):
         vs = self._vstore(obj)
         hit = vs.get(off)
         if hit is not None and hit[0] == size:
             return hit[1]
         # overlapping entries
-        over = [(o2, s2, v2) for o2, (s2, v2) in vs.items() if o2 < off + size and off < o2 + s2]
+        over = self._overlaps(obj, vs, off, size)
         if not over:
             # initial content; a location inside a zero-filled object reads as zero
             return sym('in', obj.name, off, size)
@@ -63,13 +75,19 @@ class ValueMachine(Machine):
 
     def vstore_scalar(self, obj, off, size, val):
         vs = self._vstore(obj)
-        for o2 in [o2 for o2, (s2, _) in vs.items() if o2 < off + size and off < o2 + s2]:
-            s2, v2 = vs.pop(o2)
+        hit = vs.get(off)
+        if hit is not None and hit[0] == size and getattr(obj, 'vmax', 8) <= size:
+            vs[off] = (size, val)
+            return
+        for (o2, s2, v2) in self._overlaps(obj, vs, off, size):
+            vs.pop(o2)
             if o2 < off:
                 vs[o2] = (off - o2, sym('slice', v2, 0, off - o2) if not (is_int(v2) and v2 == 0) else 0)
             if o2 + s2 > off + size:
                 vs[off + size] = (o2 + s2 - off - size,
                                   sym('slice', v2, off + size - o2, o2 + s2 - off - size) if not (is_int(v2) and v2 == 0) else 0)
+        if size > getattr(obj, 'vmax', 8):
+            obj.vmax = size
         vs[off] = (size, val)
 
     def load(self, ptr, ty, loc, align=0):
